@@ -8,7 +8,7 @@
 #       joins: queueing / reserving: i-th tuple = i-th message of each port, key_matching: equal keys, each message used once, number of tuples);
 #   real nodes fed by 3 external putters, observed at a serial sink, validated by TLC (TraceFlow).
 import os, re, json, vlib, flowlib
-SCEN = ['fifo', 'seq0', 'seq1', 'seq2', 'seq3', 'limit1', 'limit2', 'limitL1', 'limitL2', 'joinq', 'joinr', 'joink', 'prio', 'reserve', 'ow', 'wo', 'split', 'indexer']
+SCEN = ['fifo', 'seq0', 'seq1', 'seq2', 'seq3', 'limit1', 'limit2', 'limitL1', 'limitL2', 'limitD2', 'limitD3', 'limitD2s', 'joinq', 'joinr', 'joink', 'prio', 'reserve', 'ow', 'wo', 'split', 'indexer']
 
 
 def ring_schedules(cfg, tag):
@@ -64,6 +64,6 @@ def ring_replay(res, thorough):
 def run(res, tier, seed):
     thorough = tier != 'quick'
     ring_replay(res, thorough)
-    for cfg in ['Limiter_1.cfg', 'Limiter_t1.cfg', 'Limiter_big.cfg']:
+    for cfg in ['Limiter_1.cfg', 'Limiter_t1.cfg', 'Limiter_big.cfg', 'Limiter_d2.cfg', 'Limiter_d3.cfg']:
         vlib.model_check(res, flowlib.SD, 'Limiter', cfg, deadlock=False)
     flowlib.run_scenarios(res, 'C15', SCEN, 60 if not thorough else 2500, seed)
